@@ -2035,9 +2035,18 @@ impl Zeroconf {
         let mut announced_now = Vec::new();
 
         for (_, service_info) in self.my_services.iter_mut() {
-            if service_info.is_addr_auto() {
+            // A service with automatic addresses takes the new address; a service with
+            // explicit addresses is published here too if one of them is on this link.
+            let on_link = if service_info.is_addr_auto() {
                 service_info.insert_ipaddr(&intf);
+                true
+            } else if intf.ip().is_ipv4() {
+                !service_info.get_addrs_on_my_intf_v4(my_intf).is_empty()
+            } else {
+                !service_info.get_addrs_on_my_intf_v6(my_intf).is_empty()
+            };
 
+            if on_link {
                 if let Ok(true) = announce_service_on_intf(
                     dns_registry,
                     service_info,
